@@ -2962,6 +2962,10 @@ class x86_mn(x86_mn_base):
                 NEVER
         elif name == 'cmpsd' and len(args_eval) == 0:
             pass
+        elif name == 'pmovmskb':
+            # plain row name: the xmm form needs its mandatory prefix
+            if [a for a in args_eval if a[x86_afs.size] == x86_afs.xmm]:
+                prefix.append(0x66)
         elif name in mnemo_mmx_hash:
             mmx_name = mnemo_mmx_hash[name]
             if name == 'movsd':
